@@ -148,7 +148,22 @@ def c07(tier):
     return rep
 
 
+def c02(tier):
+    from . import props_c02
+    rep = Report('C02', tier,
+                 'PARTIAL: decides the structural clauses of totality - (a) allocation-site shape analysis of the syntax '
+                 'tree with look-ahead-sensitive nullness in the parser and error-free shapes propagated through the '
+                 'generator (every -> on a Node*), (b) cursor/index guards, (c) non-emptiness at back()/front()/[0], '
+                 '(d) ownership pairing, (e) the result dichotomy, (f) well-formed error records. NOT decided: bounds on '
+                 'recursion depth and work, bad_alloc, UB inside libstdc++/flex, the LR driver stack discipline.',
+                 assumptions=['the token stream handed to the parser and to macro extraction ends in one EOF token (C14.S1)',
+                              'gen() sees only error-free trees (checked: C02.e / C04.d)'], trusted=TRUSTED)
+    props_c02.c02(rep, tier)
+    return rep
+
+
 CHECKS = {
+    'C02': c02,
     'C16': c16, 'C07': c07,
     'C08': c08,
     'C03': c03,
